@@ -479,6 +479,17 @@ def run_check(check, tier, seed, workers=None, time_cap=None):
     else:
         shard_of = {}
 
+    # 3b. optional extra campaign of the check (e.g. coverage-guided fuzzing)
+    extra_info = None
+    extra_viol = []
+    if hasattr(check, 'extra_campaign'):
+        try:
+            extra_info = check.extra_campaign(tier, seed)
+        except Exception as e:  # noqa
+            total.harness_errors.append('extra campaign: %r\n%s' % (e, traceback.format_exc()[-2000:]))
+        if extra_info:
+            extra_viol = extra_info.pop('violations', [])
+
     if total.harness_errors:
         print('HARNESS-ERROR (%d):' % len(total.harness_errors))
         print(total.harness_errors[0][:4000])
@@ -507,9 +518,12 @@ def run_check(check, tier, seed, workers=None, time_cap=None):
         path = write_replay(check.pid, clause, case, detail)
         violations.append((clause, path, detail, b['count']))
 
+    for clause, path, detail in extra_viol:
+        violations.append((clause, path, detail, 1))
     # 5. sanity: clauses never evaluated / no non-trivial cases => harness trouble, not success
     wall = time.time() - t0
-    write_evidence(check, tier, seed, total, wall, len(violations), known_lines)
+    write_evidence(check, tier, seed, total, wall, len(violations), known_lines,
+                   extra=dict(extra_campaign=extra_info) if extra_info else None)
     for clause, path, detail, count in violations:
         print('VIOLATION property=%s replay=%s' % (check.pid, os.path.relpath(path, HERE)))
         print('  clause=%s cases=%d detail=%s' % (clause, count, json.dumps(detail)[:600]))
